@@ -179,13 +179,16 @@ void bn_mxp_sim_lot(bn_t c, const bn_t *a, const bn_t *b, const bn_t m, size_t n
 		return;
 	}
 
+	bn_null(t);
+	for (j = 0; j < XP_WIDTH; j++) {
+		bn_null(_a[j]);
+		bn_null(_b[j]);
+	}
+
 	RLC_TRY {
         // Will use blocks of size XP_WIDTH
-        bn_null(t);
 		bn_new(t);
         for(int j = 0; j < XP_WIDTH; j++) {
-            bn_null(_a[j]);
-            bn_null(_b[j]);
 			bn_new(_a[j]);
 			bn_new(_b[j]);
         }
